@@ -110,7 +110,13 @@ func serverConfigFor(t trial) *eio.ServerConfig {
 	if t.Fault == "heartbeat" {
 		return &eio.ServerConfig{UpgradeTimeout: 3 * time.Second, PingInterval: time.Second, PingTimeout: time.Second}
 	}
-	return &eio.ServerConfig{UpgradeTimeout: time.Second, PingInterval: 2 * time.Second, PingTimeout: 2 * time.Second}
+	if strings.HasPrefix(t.Fault, "cut") {
+		// a cut after the swap is noticed through the heartbeat: keep it short
+		return &eio.ServerConfig{UpgradeTimeout: time.Second, PingInterval: 2 * time.Second, PingTimeout: 2 * time.Second}
+	}
+	// the heartbeat travels in-band: on a loaded machine a PONG can sit behind seconds of backlog of the
+	// full-speed patterns; a generous ping timeout keeps that from being mistaken for a fault of the swap
+	return &eio.ServerConfig{UpgradeTimeout: time.Second, PingInterval: 2 * time.Second, PingTimeout: 8 * time.Second}
 }
 
 func runTrial(run *vk.Run, t trial) (out outcome) {
@@ -314,7 +320,7 @@ func runTrial(run *vk.Run, t trial) (out outcome) {
 				after := 0
 				// a slowed websocket (4 ms per chunk) must not be saturated: the heartbeat travels in-band, and a
 				// PONG stuck behind seconds of backlog is a legitimate ping timeout, not a fault of the swap
-				limit := int64(20000)
+				limit := int64(8000)
 				if workers > 1 && t.Fault != "none" {
 					limit = 3000
 				}
